@@ -1927,6 +1927,7 @@ class UserSpaceImpl(*_user_space_impl_base):
                         is_derived=True)
 
                 elif attr == "own_refs":
+                    self.clear_subs_rootitems()     # ItemSpaces hold copies
                     selfdict[name] = ReferenceImpl(
                         self, name, None,
                         container=self._own_refs,
